@@ -1,7 +1,7 @@
 """Run-time part: BOUNDED SMOKE obligations (one small construction per backend).
 
 These are not proofs over all inputs: each obligation is evaluated on one 3-atom sequence
-(plus one noisy variant, and an XY/2-atom variant in the thorough tier) under the pulser-core
+(plus one noisy variant and one XY variant with an SLM mask; 4 atoms in the thorough tier) under the pulser-core
 that is importable in this process.  They decide the clauses of C31 that a signature check
 cannot: values pulser hands back have the shape/type the emulators assume, every observable
 the packages define or re-export can be constructed, each backend Impl can be constructed,
@@ -95,8 +95,10 @@ def build_sequence(n_atoms: int = 3, kind: str = "ising"):
     if kind == "ising":
         seq.declare_channel("ch0", "rydberg_global")
         seq.add(pulser.Pulse.ConstantDetuning(pulser.BlackmanWaveform(100, 3.14159), 0.5, 0.0), "ch0")
-    else:
+    else:                                   # XY mode with an SLM mask, as test/utils_testing builds it
         seq.declare_channel("ch0", "mw_global")
+        seq.config_slm_mask([reg.qubit_ids[-1]])
+        seq.add(pulser.Pulse.ConstantDetuning(pulser.BlackmanWaveform(52, 1.5707), 0.0, 0.0), "ch0")
         seq.add(pulser.Pulse.ConstantPulse(100, 3.0, 0.0, 0.0), "ch0")
     return seq
 
@@ -279,6 +281,22 @@ def _run_obligations(ob: Obligations, repo_root: str, static: dict, tier: str, s
            what="samples.trajectory.interaction_matrix.as_tensor() is an n x n torch tensor",
            where="emu_base/pulser_adapter.py:PulserData.get_sequences")
 
+    seq_xy = build_sequence(N, "XY")
+
+    def _c_matrix_xy():
+        from emu_base import PulserData
+        from emu_mps import MPSConfig
+        cfg = MPSConfig(dt=10, observables=[pulser.backend.BitStrings(evaluation_times=[1.0])],
+                        log_level=100, num_gpus_to_use=0)
+        pdx = PulserData(sequence=seq_xy, config=cfg, dt=cfg.dt)
+        for s in pdx.hamiltonian.noisy_samples:
+            sh = tuple(s.trajectory.interaction_matrix.as_tensor().shape)
+            check(sh == (N, N), f"XY mode: samples.trajectory.interaction_matrix.as_tensor() has shape {sh}, "
+                                f"the adapter indexes it as ({N}, {N})")
+    ob.run("smoke/contract:xy-trajectory-interaction-matrix-is-nxn", _c_matrix_xy,
+           what="XY mode: samples.trajectory.interaction_matrix.as_tensor() is an n x n torch tensor",
+           where="emu_base/pulser_adapter.py:PulserData.get_sequences")
+
     def _c_nested():
         need("samples", "pd")
         for s in holder["samples"]:
@@ -397,7 +415,7 @@ def _run_obligations(ob: Obligations, repo_root: str, static: dict, tier: str, s
            where="emu_sv/sv_backend.py:SVBackend.run")
 
     def noisy(pkg):
-        nm = pulser.NoiseModel(relaxation_rate=0.1, state_prep_error=0.1, runs=1, samples_per_run=1)
+        nm = pulser.NoiseModel(relaxation_rate=0.1, state_prep_error=0.1)
         simple = [o for o in built[pkg] if type(o).__name__ in ("BitStrings", "Occupation")]
         return e2e(pkg, seq, noise=nm, n_traj=2, observables=simple or None)
     ob.run("smoke/e2e-noisy:emu_mps:MPSBackend", lambda: noisy("emu_mps"),
@@ -407,14 +425,14 @@ def _run_obligations(ob: Obligations, repo_root: str, static: dict, tier: str, s
            what="noisy run (relaxation + SPAM, 2 trajectories): density matrix, Results.aggregate",
            where="emu_sv/sv_backend.py:SVBackend.run")
 
-    if tier == "thorough":
-        seq_xy = build_sequence(2, "XY")
+    def xy(pkg):
+        simple = [o for o in built[pkg] if type(o).__name__ in ("BitStrings", "Occupation")]
+        return e2e(pkg, seq_xy, observables=simple or None)
+    ob.run("smoke/e2e-xy:emu_mps:MPSBackend", lambda: xy("emu_mps"),
+           what=f"XY (mw_global) {N}-atom run with an SLM mask (masked rows/columns of the interaction matrix)",
+           where="emu_mps/mps_backend.py:MPSBackend.run")
 
-        def xy(pkg):
-            simple = [o for o in built[pkg] if type(o).__name__ in ("BitStrings",)]
-            return e2e(pkg, seq_xy, observables=simple or None)
-        ob.run("smoke/e2e-xy:emu_mps:MPSBackend", lambda: xy("emu_mps"),
-               what="XY (mw_global) 2-atom run", where="emu_mps/mps_backend.py:MPSBackend.run")
+    if tier == "thorough":
         seq4 = build_sequence(4)
 
         def bigger(pkg):
